@@ -58,7 +58,7 @@ Definition set_sites : list site := [
   ((s "sharepoint2text/parsing/extractors/pdf/pdf_extractor.py"), (s "_TableExtractor._split_compound_words"), (1404)%Z, UMember);
   ((s "sharepoint2text/parsing/extractors/pdf/pdf_extractor.py"), (s "_TableExtractor._split_compound_words"), (1405)%Z, UMember);
   ((s "sharepoint2text/parsing/extractors/pdf/pdf_extractor.py"), (s "_TableExtractor.is_numeric_token"), (1304)%Z, UMember);
-  ((s "sharepoint2text/parsing/extractors/serialization.py"), (s "_deserialize_dataclass"), (200)%Z, UMember);
+  ((s "sharepoint2text/parsing/extractors/serialization.py"), (s "_deserialize_dataclass"), (222)%Z, UMember);
   ((s "sharepoint2text/parsing/extractors/util/omml_to_latex.py"), (s "<module>"), (157)%Z, UMember);
   ((s "sharepoint2text/parsing/extractors/util/zip_context.py"), (s "ZipContext.__init__"), (19)%Z, UMember);
   ((s "sharepoint2text/parsing/router.py"), (s "<module>"), (118)%Z, UMember);
@@ -115,10 +115,10 @@ Definition stream_sites : list stream_site := [
   ((s "sharepoint2text/parsing/extractors/ms_modern/docx_extractor.py"), (s "read_docx"), (1050)%Z, (s "seek"));
   ((s "sharepoint2text/parsing/extractors/ms_modern/pptx_extractor.py"), (s "read_pptx"), (951)%Z, (s "seek"));
   ((s "sharepoint2text/parsing/extractors/ms_modern/xlsx_extractor.py"), (s "_read_metadata"), (314)%Z, (s "seek"));
-  ((s "sharepoint2text/parsing/extractors/ms_modern/xlsx_extractor.py"), (s "_read_content"), (530)%Z, (s "seek"));
-  ((s "sharepoint2text/parsing/extractors/ms_modern/xlsx_extractor.py"), (s "_read_content"), (531)%Z, (s "read"));
-  ((s "sharepoint2text/parsing/extractors/ms_modern/xlsx_extractor.py"), (s "read_xlsx"), (588)%Z, (s "seek"));
-  ((s "sharepoint2text/parsing/extractors/ms_modern/xlsx_extractor.py"), (s "read_xlsx"), (594)%Z, (s "read"));
+  ((s "sharepoint2text/parsing/extractors/ms_modern/xlsx_extractor.py"), (s "_read_content"), (532)%Z, (s "seek"));
+  ((s "sharepoint2text/parsing/extractors/ms_modern/xlsx_extractor.py"), (s "_read_content"), (533)%Z, (s "read"));
+  ((s "sharepoint2text/parsing/extractors/ms_modern/xlsx_extractor.py"), (s "read_xlsx"), (590)%Z, (s "seek"));
+  ((s "sharepoint2text/parsing/extractors/ms_modern/xlsx_extractor.py"), (s "read_xlsx"), (596)%Z, (s "read"));
   ((s "sharepoint2text/parsing/extractors/open_office/odf_extractor.py"), (s "read_odf"), (241)%Z, (s "seek"));
   ((s "sharepoint2text/parsing/extractors/open_office/odg_extractor.py"), (s "read_odg"), (204)%Z, (s "seek"));
   ((s "sharepoint2text/parsing/extractors/open_office/odp_extractor.py"), (s "read_odp"), (541)%Z, (s "seek"));
@@ -229,6 +229,11 @@ Definition stringify_sites : list (str * str * str * sclass) := [
   ((s "sharepoint2text/parsing/extractors/util/omml_to_latex.py"), (s "process_element"), (s "right"), KReviewed);
   ((s "sharepoint2text/parsing/extractors/util/omml_to_latex.py"), (s "process_element"), (s "latex_fname"), KReviewed);
   ((s "sharepoint2text/parsing/extractors/util/omml_to_latex.py"), (s "process_element"), (s "latex_accent"), KReviewed)
+].
+
+(* calls in archive_extractor.py that could re-order members or results *)
+Definition archive_reorder_sites : list (str * Z * str) := [
+
 ].
 
 (* (pattern, replacement) of every re.sub / re.compile whose pattern names IndirectObject *)
